@@ -97,6 +97,8 @@ def gen_case(rng, nops=6, max_classes=5, focus=None):
     topo = F.topo_order(fam)
     twin_src = F.render(fam, topo, [False] * n)
     mode = rng.choice(["eager", "lazy", "lazy", "postponed", "postponed", "mixed"])
+    if focus == "apc" and rng.random() < 0.6:
+        mode = rng.choice(["postponed", "mixed"])
     order = topo if mode in ("eager", "lazy") else F.random_order(fam, rng)
     lazy = [mode == "lazy" or (mode == "mixed" and rng.random() < 0.5) for _ in range(n)]
     src = F.render(fam, order, lazy)
@@ -127,10 +129,6 @@ def fresh_expected(twin_src, op, aux=None, want_snapshot=None):
 # classification of a difference (signatures of the known findings; nothing wider)
 # ---------------------------------------------------------------------------
 
-def has_spec_stub(snap) -> bool:
-    return any(k == "S" and SPEC_RE.search(m) for c in snap.values() for m, k in c["m"].items())
-
-
 def has_class_cycle(fam) -> bool:
     """a reference cycle through at least two distinct classes"""
     cl = fam["classes"]
@@ -159,10 +157,6 @@ def classify(fam, op, got, exp, got_aux, exp_aux, got_snap, exp_snap, src="") ->
         if out[0] != "EXC" or out == other:
             continue
         if out[1] == "RecursionError":
-            if aux.get("rec") == "redispatch" and has_spec_stub(snap):
-                # the stub installed for a specialised method G.__mashumaro_*_<md5>__ rebuilds the
-                # *unspecialised* method (type_args are not passed on) and re-dispatches to itself
-                return {**sig, "kind": "stub-at-specialisation-slot", "side": side}
             if aux.get("rec") == "build-cycle" and has_class_cycle(fam):
                 # on-demand nested compilation follows a class cycle whose methods are installed only at the end
                 return {**sig, "kind": "ondemand-build-cycle", "side": side}
@@ -183,10 +177,23 @@ def run_history(case, upto=None, collect=None):
         # the twin (other definition order / eager) could be created, this family cannot: the class statements
         # themselves depend on order / mode
         got = F.canon_exc(e)
+        pred = F.predict_creation(fam, case["order"], case["lazy"]) if fam.get("classes") and "order" in case else None
+        m = re.search(r"Class (\w+) has unresolved type reference", got[2] if len(got) > 2 else "")
+        if pred is not None and got[1] == "UnresolvedTypeReferenceError" and m and m.group(1) == fam["classes"][pred]["name"]:
+            # Config.allow_postponed_evaluation = False on a class whose references are unresolved at its class statement:
+            # failing there is what was configured (not a dependence on timing); compared with the Coq model (ccase)
+            case["creation"] = {"failed": pred, "pos": case["order"].index(pred)}
+            return [(0, "<class creation>", got, ["EXC", "UnresolvedTypeReferenceError", "by-configuration"], None)]
         gaux = {"rec": F.recursion_kind(e)} if got[1] == "RecursionError" else {}
         sig = classify(fam, "<class creation>", got, ["OK", "created"], gaux, {}, {}, {}, case["src"])
         return [(0, "<class creation>", got, ["OK", "created"], sig)]
     res = []
+    pred = F.predict_creation(fam, case["order"], case["lazy"]) if fam.get("classes") and "order" in case else None
+    if pred is not None:
+        F.unload(mod)
+        exp = ["EXC", "UnresolvedTypeReferenceError", f"Class {fam['classes'][pred]['name']} has unresolved type reference"]
+        return [(0, "<class creation>", ["OK", "created"], exp,
+                 {"kind": "history-dependence", "got": "OK", "exp": "UnresolvedTypeReferenceError"})]
     try:
         if collect is not None:
             collect.append(F.snapshot(mod, fam))
@@ -234,6 +241,8 @@ def oracle_histories(ctx: vlib.Ctx, n: int, keep_cases=None, focus=None):
             for o in ("onf", "baf", "ctx"):
                 if c.get(o):
                     feats.add("flag:" + o)
+            if not c.get("apc", True):
+                feats.add("Config.allow_postponed_evaluation=False")
             if c.get("cdial"):
                 feats.add("Config.dialect")
             for _, t in c["fields"]:
@@ -270,7 +279,9 @@ def oracle_histories(ctx: vlib.Ctx, n: int, keep_cases=None, focus=None):
             ctx.hist("outcome", exp[0] if exp[0] == "OK" else "EXC:" + exp[1])
             ctx.count((case["mode"], tuple(sorted(feats)), m.group(0) if m else op[:10], "dialect=" in op, k == 0))
             if sig is not None:
-                ctx.fail(f"{case['mode']} family: op #{k} `{op[:120]}` gives {short(got, 160)} but a fresh eager twin gives {short(exp, 160)}",
+                ref = ("the configured behaviour (Config.allow_postponed_evaluation = False, unresolved reference at the class statement) is"
+                       if op == "<class creation>" and got[0] == "OK" else "a fresh eager twin gives")
+                ctx.fail(f"{case['mode']} family: op #{k} `{op[:120]}` gives {short(got, 160)} but {ref} {short(exp, 160)}",
                          {"entry": "history", "mode": case["mode"], "order": case["order"], "lazy": case["lazy"],
                           "family": fam, "source": case["src"], "twin_source": case["twin_src"],
                           "ops": case["ops"][:k + 1], "failing_op": k, "observed": got, "expected": exp},
@@ -462,6 +473,9 @@ def oracle_discriminated(ctx: vlib.Ctx, n: int):
 # oracle 2: threads making the first call at once
 # ---------------------------------------------------------------------------
 
+TIMED_OUT = ["INCONCLUSIVE", "timed-out", ""]
+
+
 def threaded_trial(src, ops, nthreads):
     """fresh family; thread i evaluates ops[i % len(ops)] after a common barrier. Returns list of outcomes."""
     mod = F.load(src, "th")
@@ -470,9 +484,9 @@ def threaded_trial(src, ops, nthreads):
 
     def work(i):
         try:
-            bar.wait(timeout=20)
+            bar.wait(timeout=300)
         except threading.BrokenBarrierError:
-            out[i] = ["EXC", "BrokenBarrier", ""]
+            out[i] = TIMED_OUT
             return
         out[i] = F.run_op(mod, ops[i % len(ops)])
     ths = [threading.Thread(target=work, args=(i,)) for i in range(nthreads)]
@@ -480,10 +494,11 @@ def threaded_trial(src, ops, nthreads):
         for t in ths:
             t.start()
         for t in ths:
-            t.join(60)
+            t.join(900)
     finally:
         F.unload(mod)
-    return out
+    # a thread that did not get through in time (loaded machine) says nothing about the schedule
+    return [TIMED_OUT if o is None else o for o in out]
 
 
 def oracle_threads(ctx: vlib.Ctx, nfam: int, reps: int):
@@ -518,6 +533,9 @@ def oracle_threads(ctx: vlib.Ctx, nfam: int, reps: int):
                 sys.setswitchinterval(old)
                 ctx.count(("threads", case["mode"], nth, fast, len(ops)))
                 ctx.hist("threads", f"n={nth}")
+                if TIMED_OUT in outs:
+                    ctx.hist("threads", "inconclusive (timed out)")
+                    continue
                 for i, o in enumerate(outs):
                     e = exps[i % len(ops)]
                     if o != e:
@@ -546,19 +564,32 @@ def run(ctx: vlib.Ctx):
     sys.setrecursionlimit(RECLIMIT)
     try:
         from harness.props import c14_coq
-        c14_coq.theorems(ctx)
+        import time
+        phases = ctx.coverage.setdefault("phase_seconds", {})
+
+        def phase(name, f, *a, **kw):
+            t0 = time.time()
+            try:
+                return f(*a, **kw)
+            finally:
+                phases[name] = round(phases.get(name, 0) + time.time() - t0, 1)
+        phase("theorems", c14_coq.theorems, ctx)
         cases = []
-        oracle_histories(ctx, ctx.budget(90, 1300), keep_cases=cases)
-        oracle_histories(ctx, ctx.budget(60, 500), keep_cases=cases, focus="spec")
-        oracle_histories(ctx, ctx.budget(60, 500), keep_cases=cases, focus="kwargs")
-        tie_ok = c14_coq.correspondence(ctx, cases)
+        phase("histories", oracle_histories, ctx, ctx.budget(60, 1300), keep_cases=cases)
+        phase("histories-spec", oracle_histories, ctx, ctx.budget(60, 500), keep_cases=cases, focus="spec")
+        phase("histories-kwargs", oracle_histories, ctx, ctx.budget(50, 500), keep_cases=cases, focus="kwargs")
+        tie_ok = phase("correspondence", c14_coq.correspondence, ctx, cases)
         if not tie_ok or ctx.unshown:
             # a broken obligation / tie: search harder where the disagreement lives
-            oracle_histories(ctx, ctx.budget(150, 600), focus="spec")
-            oracle_histories(ctx, ctx.budget(100, 400), focus="kwargs")
-        oracle_scenarios(ctx)
-        oracle_discriminated(ctx, ctx.budget(90, 600))
-        oracle_threads(ctx, ctx.budget(20, 150), ctx.budget(6, 12))
+            phase("search-harder", oracle_histories, ctx, ctx.budget(150, 600), focus="spec")
+            phase("search-harder", oracle_histories, ctx, ctx.budget(100, 400), focus="kwargs")
+        phase("scenarios", oracle_scenarios, ctx)
+        phase("discriminated", oracle_discriminated, ctx, ctx.budget(75, 600))
+        phase("threads", oracle_threads, ctx, ctx.budget(16, 150), ctx.budget(6, 12))
+        # Config.allow_postponed_evaluation = False (last, so that the streams above are unchanged)
+        apc_cases = []
+        phase("histories-apc", oracle_histories, ctx, ctx.budget(40, 400), keep_cases=apc_cases, focus="apc")
+        phase("correspondence", c14_coq.correspondence, ctx, apc_cases, tag="apc")
     finally:
         sys.setrecursionlimit(old)
     ctx.trusted += [
@@ -596,7 +627,7 @@ def replay(rep: dict) -> int:
                     sys.setswitchinterval(rep.get("switchinterval", oldsw) if r % 2 else 1e-6)
                     outs = threaded_trial(rep["source"], rep["ops"], rep["threads"])
                     for i, o in enumerate(outs):
-                        if o != exps[i % len(exps)]:
+                        if o != TIMED_OUT and o != exps[i % len(exps)]:
                             print(f"trial {r} thread {i}: {short(o, 300)} expected {short(exps[i % len(exps)], 300)}")
                             print("REPRODUCED")
                             return 1
